@@ -12,7 +12,7 @@ fn power_of(infos: &BTreeMap<u64, SectorOnChainInfo>, set: impl IntoIterator<Ite
     let mut qa = BigInt::zero();
     for s in set {
         let i = infos.get(&s).ok_or_else(|| format!("sector {s} referenced by a partition has no on-chain info"))?;
-        let p = fil_actor_miner::power_for_sector(fvm_shared::sector::SectorSize::_2KiB, i);
+        let p = fil_actor_miner::power_for_sector(i.seal_proof.sector_size().unwrap(), i);
         raw += p.raw;
         qa += p.qa;
     }
